@@ -238,11 +238,16 @@ func (n *RaftNode) Restore(rc io.ReadCloser) error {
 			return err
 		}
 
-		if err := n.db.LoadSnapshot(reader); err != nil {
-			return err
-		}
+		err = n.db.LoadSnapshot(reader)
 		// the store changed under the balloon: refresh its in-memory cache
 		n.balloon.RebuildCache()
+		if err != nil {
+			// the batches loaded before the failure are durable: the in-memory
+			// state has to follow them, or every retry asks for the wrong range
+			n.loadState()
+			n.balloon.RefreshVersion()
+			return err
+		}
 	}
 
 	n.loadState()
